@@ -58,6 +58,14 @@ def stepLine (st : St) : List String → St × String
       let (s', status) := inject st.cfg st.s i
       ({ st with s := s' }, digest status s')
     | none => (st, "bad-op")
+  -- the real daemon binary observed from outside: sealed / after a wrong passphrase / after the right one
+  | ["daemon"] =>
+    let cfg : Cfg := { correct := 1, signerKey := 10, edKey := none }
+    let obs (s : State) := s!"readyz={readyz s} readiness={readiness s} service={if serviceUp s then "open" else "closed"}"
+    let s0 := init
+    let (s1, c1) := inject cfg s0 (.pass 2)
+    let (s2, c2) := inject cfg s1 (.pass 1)
+    (st, s!"sealed {obs s0} | wrong inject={c1} {obs s1} | right inject={c2} {obs s2} x509ca={s2.caKeys.length}")
   | ["req"] => (st, s!"{readyz st.s} {match guardedStatus st.s with | some n => toString n | none => "pass"}")
   | _ => (st, "bad-op")
 
